@@ -264,10 +264,15 @@ func (w *world) attempt(cs *Case, data [][]byte) *Result {
 			res.BodyNil = true
 			return
 		}
-		if o.NoAutoRead || o.Download != "" {
-			res.Chain, res.ChainNil = walkChain(resp.Response.Body)
-			res.HasChain = true
-		}
+		body0 := resp.Response.Body
+		defer func() {
+			// walked after the body has been read (the end-of-message wrapper of the decoders changes
+			// the stack on its first Read)
+			if o.NoAutoRead || o.Download != "" {
+				res.Chain, res.ChainNil = walkChain(body0)
+				res.HasChain = true
+			}
+		}()
 		switch {
 		case o.Download == "writer":
 			res.BodyLen = atomic.LoadInt64(&cw.n)
@@ -513,6 +518,10 @@ func walkChain(body io.ReadCloser) (tags []string, bottomNil bool) {
 			tag, field = "TGzipH1", "body"
 		case "req.bodyEOFSignal":
 			tag, field = "TEofSignal", "body"
+		case "compress.endChecked":
+			tag, field = "TEndChecked", "dec"
+		case "compress.trackedBody":
+			tag, field = "TTracked", "body"
 		case "compress.GzipReader":
 			tag, field = "(TCompress Gzip)", "Body"
 		case "compress.DeflateReader":
